@@ -12,7 +12,8 @@
 (*                input per line whose lanes take DIFFERENT branches.               *)
 EXTENDS Simd, TLC, Json
 
-CONSTANTS Emit
+CONSTANTS Emit,
+          Masks      \* "few" or "all": which masks deal two classes over 4 and 8 lanes
 
 (* Families of abstract input classes.  `src`: the nodes whose coordinates the classes are phrased in; the groupings
    are run for every conversion from such a node that exists for wide types.
@@ -61,6 +62,17 @@ VecB(n) == [i \in 1..n |-> 10 + i]
 (* a piecewise scalar operation to lift: branch on which component is largest *)
 Piece(c) == IF c[1] >= c[2] /\ c[1] >= c[3] THEN <<c[1], 0, 0>> ELSE IF c[2] >= c[3] THEN <<0, c[2] + 1, 0>> ELSE <<0, 0, c[3] + 2>>
 
+(* masks that deal two classes over n lanes; "few": the structured ones, "all": every non-constant mask *)
+Bits(n, bs) == [i \in 1..n |-> bs[i] = 1]
+FewMasks(n) == IF n = 4
+               THEN {Bits(4, b) : b \in {<<1,1,0,0>>, <<0,0,1,1>>, <<1,0,1,0>>, <<0,1,0,1>>, <<1,0,0,0>>, <<0,1,1,1>>}}
+               ELSE {Bits(8, b) : b \in {<<1,1,1,1,0,0,0,0>>, <<0,0,0,0,1,1,1,1>>, <<1,1,0,0,1,1,0,0>>, <<1,0,1,0,1,0,1,0>>,
+                                         <<1,0,0,0,0,0,0,0>>, <<0,1,1,1,1,1,1,1>>, <<1,1,1,0,0,0,0,0>>, <<0,0,0,1,1,1,1,1>>}}
+TwoClassMasks(n) == IF Masks = "all" THEN {m \in [1..n -> BOOLEAN] : \E i, j \in 1..n : m[i] # m[j]} ELSE FewMasks(n)
+RECURSIVE MaskNumFrom(_, _)
+MaskNumFrom(m, i) == IF i > Len(m) THEN 0 ELSE (IF m[i] THEN 1 ELSE 0) + 2 * MaskNumFrom(m, i + 1)
+MaskNum(m) == MaskNumFrom(m, 1)
+
 VARIABLE case
 Init ==
   \/ \E n \in LaneCounts : \E arr \in [1..n -> (IF n = 8 THEN Cols2 ELSE Cols)] : case = [part |-> "pack", n |-> n, arr |-> arr]
@@ -74,6 +86,13 @@ Init ==
        \/ \E n \in {4, 8}, sq \in {1, 2}, r \in 0..(Len(Families[f].classes) - 1) :
             case = [part |-> "group", fam |-> Families[f].fam, src |-> Families[f].src, n |-> n, sq |-> sq, r |-> r, k |-> Len(Families[f].classes),
                     lanes |-> LatinRow(Families[f].classes, n, sq, r)]
+       (* two classes dealt over the lanes by a mask (sq = 3): whole halves, quarters, alternating lanes, one lane against
+          the rest - the shapes a vector-wide shortcut ("no lane / every lane takes this branch") can get wrong; r is the
+          mask as a number *)
+       \/ \E n \in {4, 8} : \E c1 \in DOMAIN Families[f].classes : \E m \in TwoClassMasks(n) :
+            LET k == Len(Families[f].classes)  c2 == (c1 % k) + 1
+            IN case = [part |-> "group", fam |-> Families[f].fam, src |-> Families[f].src, n |-> n, sq |-> 3, r |-> MaskNum(m), k |-> k,
+                       lanes |-> [i \in 1..n |-> Families[f].classes[IF m[i] THEN c1 ELSE c2]]]
 Next == UNCHANGED case
 Spec == Init /\ [][Next]_case
 
@@ -141,12 +160,14 @@ GroupLaws ==
     IN /\ Len(case.lanes) = n
        /\ \A i \in 1..n : \E c \in DOMAIN cl : case.lanes[i] = cl[c]
        (* Latin rows: the lanes take as many different branches as there are lanes (or classes) *)
-       /\ (case.sq # 0 => \A i, j \in 1..(IF n < k THEN n ELSE k) : i # j => case.lanes[i] # case.lanes[j])
+       /\ (case.sq \in {1, 2} => \A i, j \in 1..(IF n < k THEN n ELSE k) : i # j => case.lanes[i] # case.lanes[j])
        (* Latin square: over the k rows every class visits every lane exactly once *)
-       /\ (case.sq # 0 => \A i \in 1..n : \A c \in DOMAIN cl :
+       /\ (case.sq \in {1, 2} => \A i \in 1..n : \A c \in DOMAIN cl :
              \E r \in 0..(k - 1) : /\ LatinRow(cl, n, case.sq, r)[i] = cl[c]
                                    /\ \A r2 \in 0..(k - 1) : LatinRow(cl, n, case.sq, r2)[i] = cl[c] => r2 = r)
        /\ Gcd(Stride(2, k), k) = 1
+       (* mask groupings: exactly two classes (one when the family has a single class), both present *)
+       /\ (case.sq = 3 => Cardinality2(Distinct(case.lanes)) = (IF k = 1 THEN 1 ELSE 2))
 
 EmitGroup == (Emit /\ Is("group")) => PrintT(<<"REPLAY", ToJson(case)>>)
 =============================================================================
